@@ -36,12 +36,12 @@ def to_smt2(assertions, logic=None, want_model=True):
 
 
 def guess_logic(assertions):
-    has_real = has_str = nonlin = quant = arr = uf = False
+    has_real = has_str = nonlin = quant = arr = uf = has_int = False
 
     seen = set()
 
     def walk(e):
-        nonlocal has_real, has_str, nonlin, quant, arr, uf
+        nonlocal has_real, has_str, nonlin, quant, arr, uf, has_int
         if e.get_id() in seen:
             return
         seen.add(e.get_id())
@@ -53,6 +53,8 @@ def guess_logic(assertions):
             srt = e.sort()
             if srt.kind() == z3.Z3_REAL_SORT:
                 has_real = True
+            if srt.kind() == z3.Z3_INT_SORT:
+                has_int = True
             if srt.kind() == z3.Z3_SEQ_SORT:
                 has_str = True
             if srt.kind() == z3.Z3_ARRAY_SORT:
@@ -74,6 +76,8 @@ def guess_logic(assertions):
         walk(a)
     if quant or arr or uf or has_str:
         return None  # let the solver choose (ALL)
+    if has_real and has_int:
+        return None
     if has_real:
         return "QF_NRA" if nonlin else "QF_LRA"
     return "QF_NIA" if nonlin else "QF_LIA"
